@@ -721,7 +721,7 @@ def declChain (decl : List PTask) : List Nat → Bool
 
 /-- **C18_failed_ancestor_skips_full** — the clause at full strength: a task that depends on a failed task *transitively
 through declared products and dependencies* (`decl`: the task records as collected, or as defined by a generator) is not
-executed in that build. **False of the current code** (finding F38): the pattern dependency of a task that is skipped
+executed in that build. **False of the current code** (finding F42): the pattern dependency of a task that is skipped
 because an ancestor failed is resolved anyway, the re-created DAG loses the link to the failed producer, and the marks
 are renewed only below FAIL reports. -/
 def C18_failed_ancestor_skips_full : Prop :=
@@ -731,7 +731,7 @@ def C18_failed_ancestor_skips_full : Prop :=
     (f, Outcome.fail) ∈ sm.reports → (∀ x ∈ decl, x ∈ ts ∨ ∃ g L, x ∈ Y g L) → declChain decl (f :: chain ++ [t]) = true →
     (stepOf Y F sm t).log = sm.log
 
-/-! The F38 witness: 1 produces the pattern and raises; 2 consumes the pattern (its product 101 is left over); generator 5
+/-! The F42 witness: 1 produces the pattern and raises; 2 consumes the pattern (its product 101 is left over); generator 5
 defines 6, which depends on 101. Order 1, 2, 5, 6. -/
 def f38Pat : Pat := ⟨500000, 1000, 5⟩
 def f38Ts : List PTask := [{ id := 1, src := 9000, pprods := [⟨f38Pat, none⟩], fails := true },
@@ -745,7 +745,7 @@ def f38Sm : Prov.Sess := match loop f38Y f11F f38S0 [1, 2, 5] with | .ok s => s 
 def f38S' : Prov.Sess := match loop f38Y f11F f38Sm [6] with | .ok s => s | .error _ => exDummy
 
 set_option maxRecDepth 8000 in
-/-- **C18_failed_ancestor_skips_full_false** (finding F38): 6 depends on 2's product, 2 on the pattern 1 failed to produce;
+/-- **C18_failed_ancestor_skips_full_false** (finding F42): 6 depends on 2's product, 2 on the pattern 1 failed to produce;
 1 FAIL, 2 SKIP_PREVIOUS_FAILED — and the function of 6 is called. -/
 theorem C18_failed_ancestor_skips_full_false : ¬ C18_failed_ancestor_skips_full := by
   intro h
